@@ -6,12 +6,58 @@ from engines import tensor_common as tc
 from engines import tensor_gen as g
 
 
+EXP_CLAMP_LO, LN_FLT_MAX = 88.3762626647949, 88.7228394
+
+
+def elem_pairs(ctx):
+    """Every elementwise Device entry point (fw and bw) on Naive and on Eigen over a grid reaching the
+    ends of the float32 range (harness/elem_pair_drv.cc): |naive - eigen| <= 2e-5 * max(1, |.|), same
+    inf/NaN class, same accept/reject."""
+    import re
+    import subprocess
+    drv = pv.build_harness("plain", "elem_pair_drv")
+    out = subprocess.run([drv], capture_output=True, text=True, timeout=600)
+    lines = out.stdout.splitlines()
+    summ = [l for l in lines if l.startswith("SUMMARY")]
+    info = {"summary": summ[-1] if summ else "none", "rc": out.returncode,
+            "tolerance": "|naive-eigen| <= 2e-5*max(1,|naive|,|eigen|); inf/NaN classes equal; same accept/reject",
+            "grid": "finite normal-range inputs incl. +-(1.2e-38 .. 3e38), the exp overflow band 87..89, 100, 1e3..1e30; "
+                    "vector length = packets + scalar tail, two arrangements; constants k in {0,.5,-2,1,3,-1.5,.01,1e4,selu-alpha}; pown k in -40..40"}
+    if out.returncode != 0 or not summ:
+        ctx.violation("elem-pair-crash", {"kind": "crash", "rc": out.returncode, "tail": lines[-10:] + out.stderr.splitlines()[-10:],
+                                          "witness": "elem_pair_drv crashed"}, True, "elem_pair_drv rc=%d" % out.returncode)
+        ctx.cov["elementwise_pairs"] = info
+        return
+    edge_hits, shown = 0, 0
+    for l in lines:
+        if not l.startswith("DIFF"):
+            continue
+        m = re.match(r"DIFF exp (fw|bw) i=\d+ x=([-0-9.e+]+) naive=(\S+) eigen=(\S+)", l)
+        if m and EXP_CLAMP_LO < float(m.group(2)) < LN_FLT_MAX and "inf" in m.group(4) and "inf" not in m.group(3) and "nan" not in m.group(3):
+            edge_hits += 1
+            ctx.violation("elem-pair-edge", {"kind": "backend-difference", "line": l, "witness": "elem-pair :: eigen exp overflow band: " + l}, True, l)
+            continue
+        if shown < 6:
+            ctx.violation("elem-pair", {"kind": "backend-difference", "line": l, "witness": "elem-pair :: " + l,
+                                        "replay_hint": "tools/build_harness.sh plain elem_pair_drv && _work/bin/elem_pair_drv.plain | grep DIFF"}, True, l)
+        shown += 1
+    info["exp_overflow_band_hits"] = edge_hits
+    info["other_differences"] = shown
+    if not ctx.quick():
+        e = subprocess.run([drv, "edge"], capture_output=True, text=True, timeout=600)
+        el = e.stdout.splitlines()
+        info["edge_grid_informational"] = {"note": "denormal, -0, +-inf and NaN inputs: not judged (rounding is not defined there); counts only",
+                                           "summary": ([x for x in el if x.startswith("SUMMARY")] or ["none"])[-1]}
+    ctx.cov["elementwise_pairs"] = info
+
+
 def run(ctx):
     ctx.level = "translation_validation"
     n = 6000 if ctx.quick() else 80000
     cases, bad = tc.run_stream(ctx, "tensor-all-eigen", g.ALL_OPS, n, backend="eigen",
                                exhaustive_ops=("sum_fw", "max_fw", "flip_fw", "argmax", "max_bw", "flip_bw"))
     cases2, bad2 = tc.run_stream(ctx, "tensor-all-naive", g.ALL_OPS, n // 2, backend="naive")
+    elem_pairs(ctx)
     summ = tc.optional_part(ctx, "progcheck", "run_mode", "backend", 3000 if ctx.quick() else 40000)
     if summ is not None:
         ctx.cov["program_level"] = summ
